@@ -201,6 +201,15 @@ def run (s : State) : List Op → State × List Res
     let rest := run r.1 ops
     (rest.1, r.2 :: rest.2)
 
+/-- the packet numbers whose `insert` returned `Ok` while running the history from `s`
+    (chronological order): the set "S" of the property, read off the window's own answers -/
+def accepted (s : State) : List Op → List Nat
+  | [] => []
+  | .insert pn :: ops =>
+    let r := step s (.insert pn)
+    if r.2 = .ok then pn :: accepted r.1 ops else accepted r.1 ops
+  | .check pn :: ops => accepted (step s (.check pn)).1 ops
+
 end Quic.Data.SlidingWindow
 
 /-! ### reference: a plain set of accepted packet numbers -/
